@@ -12,12 +12,17 @@ CONF = dict(
  'with length mismatches in between. Contexts: with a deadline, cancelled explicitly before the deadline, without deadline and cancelled explicitly, without '
  'deadline and not cancelled until every clock has completed; clocks that never complete whatever happens to the context. Races: 2..3 goroutines released from a '
  'spin barrier call MeasureClockOffsets on one collector at the same virtual instant with no synchronisation between them (5000 trials per quick run, varying '
- 'per-caller delays and yielding). Non-trivial: a round with >= 2 clocks of which at least one is not finished by the deadline (or finishes exactly at it) '
- 'and at least one finishes by it; a history in which a call is made while another is in progress; a race with at least two callers whose rounds take time; '
+ 'per-caller delays and yielding). Sync iterations: the real sync.Run driven for 1..3 iterations (fake system clock whose Sleep ends the goroutine, recording adjuster, '
+ '0..4 scripted reference clocks and 0..4 scripted peers per iteration completing before / at / after SyncTimeout, beyond SyncInterval, only on cancellation or '
+ 'never); observed per iteration: start, hand-over of the correction (adj.Do), Sleep call and argument, invocation and return of every source. Non-trivial: a round with >= 2 clocks of which at least one is not finished by the deadline (or finishes exactly at it) '
+ 'and at least one finishes by it; a history in which a call is made while another is in progress; a race with at least two callers whose rounds take time; a sync '
+ 'iteration with >= 2 sources of which at least one is not finished by SyncTimeout; '
  'distinct = distinct (kind, input)'),
     assumptions=['virtual time with maximal progress (testing/synctest semantics): time advances only when no goroutine can run; timed events fire in time order, events of one '
  'instant in any order',
  "Go's select picks any ready arm; an unbuffered channel send is a rendezvous; a cancelled context's Done channel stays closed",
+ 'one iteration of sync.Run = two instances of the collector model (reference clocks; peers plus the local clock Run appends) started at the same instant under '
+ 'the same timeout; Run hands the correction over at the later of the two returns (the channel hand-offs inside Run take no virtual time)',
  'a call starting at the very instant another call on the same collector returns may be refused or let in (both orders of the two events are schedules)',
  'concurrent callers reach the compare-and-swap in some total order (linearizability of sync/atomic); the observation of a race case must be what the guard '
  'model does for one of the orders, and must satisfy an oracle that does not depend on the order',
